@@ -20,8 +20,10 @@ import (
 	"os"
 	"os/exec"
 	"path/filepath"
+	"runtime"
 	"strings"
 	"sync"
+	"time"
 
 	"github.com/markkurossi/mpc/circuit"
 	"github.com/markkurossi/mpc/ot"
@@ -323,6 +325,9 @@ func runC17Child(c *Ctx) error {
 		fmt.Fprintln(os.Stderr, "c17child: race detector on")
 	}
 	if err := c17FirstUse(c); err != nil {
+		return err
+	}
+	if err := c17Unreleased(c); err != nil {
 		return err
 	}
 	for sr := 0; sr < c.N(8, 120); sr++ {
@@ -959,4 +964,116 @@ func c17FirstUse(c *Ctx) error {
 		c.Hist(fmt.Sprintf("first-use-failed:%v", nPanic+nErr+nBad > 0))
 	}
 	return nil
+}
+
+// c17KeepTables garbles and returns ONLY the tables: the *Garbled itself is
+// unreachable when the function returns (Release is optional: "skipping it just
+// forgoes reuse"; sha2pc.garbleOnce keeps the tables of a garbling of a
+// package-global circuit this way).
+//
+//go:noinline
+func c17KeepTables(circ *circuit.Circuit, key []byte, seed uint64) (ot.Label, []ot.Wire, [][]ot.Label, error) {
+	g, err := circ.Garble(NewRNG(seed), key)
+	if err != nil {
+		return ot.Label{}, nil, nil, err
+	}
+	r, w, t := g.R, g.Wires, g.Gates
+	g = nil
+	return r, w, t, nil
+}
+
+// c17Unreleased: a garbling that is never released stays valid.  Garble, keep
+// only g.Wires / g.Gates (no copy), drop the handle, let the garbage collector
+// and the finalizer goroutine run, garble the same circuit several more times
+// (one goroutine, then several), and only THEN evaluate the retained tables.
+func c17Unreleased(c *Ctx) error {
+	r := c.rng.Fork()
+	for tr := 0; tr < c.N(12, 100); tr++ {
+		circ := GenCircuit(r, GenOpts{MinIn: 2, MaxIn: 8, MinGates: 8, MaxGates: 60, MaxOut: 6, Overwrite: true})
+		ni := circ.Inputs.Size()
+		key := r.Bytes([]int{16, 24, 32}[tr%3])
+		seed := r.U64()
+		x := randBits(r, ni)
+		_, wires, gates, err := c17KeepTables(circ, key, seed)
+		if err != nil {
+			return err
+		}
+		// one collection finds the handle unreachable and queues finalizers/cleanups, which
+		// then run on their own goroutine; a second collection (every other trial) would move
+		// what they put into a sync.Pool to the pool's victim cache, a third would drop it
+		for i := 0; i < 1+tr%2; i++ {
+			runtime.GC()
+			time.Sleep(10 * time.Millisecond)
+			for y := 0; y < 100; y++ {
+				runtime.Gosched()
+			}
+		}
+		// later garblings of the same circuit, kept alive and unreleased until the end
+		var later []*circuit.Garbled
+		for i := 0; i < 3; i++ {
+			g, err := circ.Garble(NewRNG(r.U64()), key)
+			if err != nil {
+				return err
+			}
+			later = append(later, g)
+		}
+		var mu sync.Mutex
+		var wg sync.WaitGroup
+		// many goroutines: a scratch put back by another goroutine sits in the per-P part of the
+		// sync.Pool and is found by whoever runs on (or steals from) that P
+		nG := 2 * runtime.GOMAXPROCS(0)
+		if nG < 8 {
+			nG = 8
+		}
+		seeds := make([]uint64, nG)
+		for i := range seeds {
+			seeds[i] = r.U64()
+		}
+		for i := 0; i < nG; i++ {
+			wg.Add(1)
+			go func(i int) {
+				defer wg.Done()
+				for y := 0; y < 2; y++ {
+					g, err := circ.Garble(NewRNG(seeds[i]+uint64(y)), key)
+					if err == nil {
+						mu.Lock()
+						later = append(later, g)
+						mu.Unlock()
+					}
+				}
+			}(i)
+		}
+		wg.Wait()
+		// the retained garbling against the same call run alone and against the truth table
+		solo := freshCopy(circ)
+		g2, err := solo.Garble(NewRNG(seed), key)
+		if err != nil {
+			return err
+		}
+		want := TruthEval(circ, x)
+		rep := map[string]interface{}{"seed": c.Seed, "trial": tr, "circuit": circuitText(circ), "key": fmt.Sprintf("%x", key), "x": bitsString(x)}
+		c.Eval(fmt.Sprintf("unreleased/%d", tr), true)
+		bad := ""
+		if !sameWires(wires, g2.Wires) || !sameGates(gates, g2.Gates) {
+			bad = "the retained Wires/Gates no longer hold the garbling Garble returned"
+		}
+		_, dec, eerr := evalOn(circ, key, wires, gates, x)
+		if eerr != nil {
+			bad = "Eval of the retained tables: " + eerr.Error()
+		} else if bitsString(decBits(dec)) != bitsString(want) || fmt.Sprint(dec) != fmt.Sprint(decOnly(solo, key, g2, x)) {
+			bad = fmt.Sprintf("Eval of the retained tables decodes to %v, expected %s", dec, bitsString(want))
+		}
+		if bad != "" {
+			c.Fail("c17:unreleased-garbling:invalidated-after-gc",
+				"a garbling that was never released (only its Wires/Gates were kept, the *Garbled became unreachable, GC ran, "+fmt.Sprint(len(later))+" later Garble calls on the same circuit): "+bad, rep)
+		}
+		c.Hist(fmt.Sprintf("unreleased-trial-bad:%v", bad != ""))
+		runtime.KeepAlive(later)
+	}
+	return nil
+}
+
+func decOnly(circ *circuit.Circuit, key []byte, g *circuit.Garbled, x []bool) []int {
+	_, d, _ := evalOn(circ, key, g.Wires, g.Gates, x)
+	return d
 }
